@@ -1,6 +1,6 @@
 #!/bin/bash
 # wave_eval.sh <id> <srcdir> <slot>: confirm a delivered seeded change, store it as seeded/<id>/, run its own
-# property's quick check against it in private worktree /tmp/wt/eval<slot>; appends a line to /tmp/wave4.tsv
+# property's quick check against it in private worktree /tmp/wt/eval<slot>; appends a line to ${WAVE_TSV:-/tmp/wave4.tsv}
 ID=$1; SRC=$2; SLOT=$3; PID=${ID%%_*}
 D=/verif/seeded/$ID; mkdir -p $D
 cp $SRC/patch.diff $SRC/demo.py $SRC/meta.json $D/
@@ -8,7 +8,7 @@ CONF=$(WT=conf$SLOT /verif/harness/confirm_seed.sh $D)
 /venv/bin/python - "$D/meta.json" "$ID" "$CONF" <<'PY'
 import json, sys
 p, i, conf = sys.argv[1:4]
-m = json.load(open(p)); m['id'] = i; m['wave'] = 4
+m = json.load(open(p)); m['id'] = i; m["wave"] = int(__import__("os").environ.get("WAVE", "4"))
 c = json.loads(conf)
 m['confirmed'] = dict(c, by='harness/confirm_seed.sh in a scratch worktree of /repo HEAD', commands=[
  'git apply patch.diff (scratch worktree)', 'python setup.py build_ext --inplace',
@@ -16,4 +16,4 @@ m['confirmed'] = dict(c, by='harness/confirm_seed.sh in a scratch worktree of /r
 json.dump(m, open(p, 'w'), indent=1)
 PY
 OUT=$(WT=eval$SLOT /verif/harness/try_wt.sh $D/patch.diff $PID quick | tr '\n' ' ')
-echo -e "$ID\t$CONF\t$OUT" >> /tmp/wave4.tsv
+echo -e "$ID\t$CONF\t$OUT" >> ${WAVE_TSV:-/tmp/wave4.tsv}
